@@ -45,7 +45,8 @@ std::pair<bool, long long> AbacusLegalizer::evaluatePlacement(int cell,
   if (getOrientation(cell, row) == CellOrientation::INVALID) {
     return std::make_pair(false, 0);
   }
-  int dist = rowLegalizers_[row].getCost(cellWidth_[cell], cellTargetX_[cell]);
+  long long dist =
+      rowLegalizers_[row].getCost(cellWidth_[cell], cellTargetX_[cell]);
   return std::make_pair(true, dist);
 }
 
